@@ -36,7 +36,7 @@ Addrs    == {"ok", "bad", "absent", "emptygroup"}
 Dates    == {"ok", "bad", "absent"}
 PTypes   == {"plain", "html", "related", "alternative", "mixed", "noctype", "other", "twoctypes"}
 Disps    == {"absent", "attachment", "inline", "other", "empty"}
-FNames   == {"absent", "quoted", "unquoted2", "unquoted1", "empty", "quoteonly", "unterminated", "dup", "encoded",
+FNames   == {"absent", "quoted", "unquoted2", "unquoted1", "empty", "quoteonly", "unterminated", "dup", "encoded", "encodedkoi",
              "sizeneg", "sizehuge", "sizeok"}       \* a size parameter next to the file name: negative, absurdly large, plausible
 Truncs   == {"none", "header", "boundary", "body", "noclose"}
 
